@@ -167,7 +167,6 @@ class AddressAg(AddressBase):
                 self._type = "host"
             elif self._platform == "ios":
                 self._type = "subnet"
-                self._sequence = 0
             elif self._platform == "nxos":
                 self._type = "prefix"
 
@@ -177,6 +176,9 @@ class AddressAg(AddressBase):
 
         elif self._platform == "nxos":
             self._type = "wildcard"
+
+        if self._platform == "ios":
+            self._sequence = 0  # sequence numbers exist only on nxos
 
         for item in self._items:
             item.platform = self._platform
